@@ -548,6 +548,9 @@ func TestC05(t *testing.T) {
 		runRouting(r)
 		runAcceptedRefusals(r)
 	}
+	if r.Lane == 0 {
+		quicLanes(r, "admission")
+	}
 	var cfgs []admCfg
 	for _, en := range [][]string{{"polling", "websocket"}, {"polling"}, {"websocket"}, {"polling", "websocket", "webtransport"}} {
 		for _, a3 := range []bool{false, true} {
